@@ -362,6 +362,7 @@ static struct conn *carg(struct vt_line *L, int t, struct conn *self)
 	return by_id(atoi(L->tok[t]));
 }
 static int usable(struct conn *c) { return c && c->id && !c->destroyed; }
+static int svc_stats;       /* --svc-stats: record qb_ipcs_stats_get after every main-loop step (check X03; off for C04 / C03) */
 static int svc_usable(void) { return svc && svc_own_refs > 0; }
 static void app_unref(struct conn *c)
 {
@@ -631,7 +632,8 @@ int main(int argc, char **argv)
 {
 	if (argc < 3) return 2;
 	for (int i = 3; i < argc; i++)
-		if (!strncmp(argv[i], "--kf-skip=", 10))
+		if (!strcmp(argv[i], "--svc-stats")) svc_stats = 1;
+		else if (!strncmp(argv[i], "--kf-skip=", 10))
 			for (char *q = argv[i] + 10; *q; q++) if (*q >= '1' && *q <= '9') kf_mask |= 1u << (*q - '0');
 	FILE *f = fopen(argv[1], "r");
 	if (!f) { perror(argv[1]); return 2; }
@@ -657,6 +659,14 @@ int main(int argc, char **argv)
 			const char *o = L->tok[0];
 			if (!strcmp(o, "Svc") || !strcmp(o, "Body") || !strcmp(o, "AcceptRet") || !strcmp(o, "ClosedRet")) continue;
 			exec_op(L, 0, L->n, NULL);
+			if (svc_stats && svc_usable() && !cb_depth) {
+				/* back in the application's main loop: the service's own statistics (qb_ipcs_stats_get) */
+				struct qb_ipcs_stats st;
+				memset(&st, 0, sizeof(st));
+				if (qb_ipcs_stats_get(svc, &st, QB_FALSE) == 0) {
+					vt_ev("SvcStats"); vt_i((long long)(int32_t)st.active_connections); vt_i((long long)(int32_t)st.closed_connections); vt_res(); vt_end();
+				}
+			}
 		}
 		finish();
 		if (!eof) vt_simple("Reset");
